@@ -367,43 +367,10 @@ def handles(P, R):
                         'the node stored on the handle is not the node '
                         'that was referenced', unit=c.unit.rel,
                         line=c.lineno)
-        # finaliser: exactly one release on every releasing path
-        bad = None
-        rel = 0
-        for path in pa.function_paths(d.node):
-            if pa.exit_kind(path) not in ('fall', 'return'):
-                continue
-            k = sum(1 for it in path if it[0] == 'stmt'
-                    for x in au.calls_in(it[1])
-                    if au.call_name(x) == deref)
-            early = any(
-                it[0] == 'test' and au.src(it[1]).replace(
-                    ' ', '') in ('self._ref==0',) and it[2]
-                for it in path)
-            if early:
-                if k:
-                    bad = 'releases although the lower bound is zero'
-                continue
-            rel += 1
-            if k != 1:
-                bad = f'gives back {k} library reference(s) instead of one'
-        if bad or rel == 0:
-            R.violation('R-CYTS', 'handle-release', d.qualname, deref,
-                        f'{d.qualname} {bad or "never releases"}',
-                        unit=d.unit.rel, line=d.lineno)
-        else:
-            R.holds('R-CYTS', d.qualname,
-                    f'one {deref} on each of {rel} releasing path(s)')
-        # released node = stored node
-        derefs = [x for x in au.calls_in(d.node) if au.call_name(x) == deref]
-        if derefs and au.src(derefs[0].args[-1]).replace(
-                ' ', '') == 'self.node':
-            R.holds('R-CYTS', d.qualname, 'releases the node of the '
-                    'handle', nontrivial=False)
-        else:
-            R.violation('R-CYTS', 'handle-release', d.qualname, 'node',
-                        'the finaliser does not release `self.node`',
-                        unit=d.unit.rel, line=d.lineno)
+        # finaliser: exactly one release of the node held, decided on a
+        # recording model of the library call
+        from . import models
+        models.cy_release_model(P, R, mod, deref)
     # wrap(): builds a handle and initialises it with the given node
     for mod in ('dd.cudd', 'dd.cudd_zdd', 'dd.sylvan'):
         w = P.func(f'{mod}.wrap')
